@@ -373,7 +373,7 @@ class SchemaFactory:
                     "li": (list[int], ...), "ls": (list[str], ...),
                     "oi": (Optional[int], ...), "os": (Optional[str], ...),
                     "oid": (Optional[int], None), "osd": (Optional[str], None),
-                    "id": (int, 7), "sd": (str, "dflt"),
+                    "id": (int, 7), "sd": (str, "dflt"), "la": (list, ...),
                 }.get(kind, (int, ...))
         self.n += 1
         return create_model(name or f"M{self.n}", __base__=self.base, **defs)
@@ -525,7 +525,7 @@ class C11(Prop):
     id = "C11"
     title = "Output validator: 'valid' implies the schema holds; clean JSON is taken verbatim"
     fixed_prefix = 1
-    quick_budget = 700
+    quick_budget = 600
     thorough_budget = 12000
     quick_deadline_s = 100
     thorough_deadline_s = 800
@@ -594,6 +594,14 @@ class C11(Prop):
         self.pattern_names = {f"extracted_via_{n}": f"x{i}" for i, (_, n) in enumerate(PINNED_PATTERNS)}
         self.repair_names = {n: f"r{i}" for i, (_, _, n) in enumerate(PINNED_REPAIRS)}
 
+    @staticmethod
+    def safe_stats(ch):
+        try:
+            s = ch.get_statistics()
+            return s if isinstance(s.get("strategy_success"), dict) else None
+        except Exception:
+            return None
+
     def strategies_of(self, tok):
         if tok == "none":
             return None
@@ -624,13 +632,16 @@ class C11(Prop):
                 S = self.factory.get(spec)
                 emit(line, "ok")
             elif t[0] == "new" and len(t) == 2:
-                ctor = t[1]
-                ch = m.Chaperone(strategies=self.strategies_of(ctor), silent=True)
-                emit(line, "ok")
+                try:
+                    ch = m.Chaperone(strategies=self.strategies_of(t[1]), silent=True)
+                    ctor = t[1]
+                    emit(line, "ok")
+                except Exception as e:      # an observation, judged like every other one
+                    emit(line, f"raise:{type(e).__name__}")
             elif t[0] in ("fold", "foldx") and len(t) == 3:
                 raw = unhexs(t[1])
                 strat = self.strategies_of(t[2])
-                before = ch.get_statistics()
+                before = self.safe_stats(ch)
                 REC.top = S
                 REC.calls = []
                 REC.describe_schema(S)
@@ -643,22 +654,29 @@ class C11(Prop):
                     err = e
                 finally:
                     REC.active = False
-                after = ch.get_statistics()
+                after = self.safe_stats(ch)
                 for el in REC.take_pending():
                     emit(el, "ok")
                 calls = "calls=[" + ",".join(str(i) for i in REC.calls) + "]"
                 if REC.nondet:
                     calls += " nondeterministic-library"
-                used = [k for k in "selr" if after["strategy_success"][STRAT_LETTERS[k].lower()]
-                        != before["strategy_success"][STRAT_LETTERS[k].lower()]]
+                used = []
+                if before is not None and after is not None:
+                    used = [k for k in "selr" if after["strategy_success"].get(STRAT_LETTERS[k].lower())
+                            != before["strategy_success"].get(STRAT_LETTERS[k].lower())]
                 info = {"op": t[0], "raw": raw, "strat": t[2], "ctor": ctor, "S": S, "result": r, "error": err,
                         "used_by_stats": used}
                 if err is not None:
                     emit(line, f"raise:{type(err).__name__} {calls}", info)
                     continue
-                sid = "none" if r.structure is None else str(REC.sid(r.structure))
-                head = [show_bool(r.valid is True), sid, show_bool(r.error_trace is not None),
-                        show_bool(r.raw_peptide_chain == raw)]
+                try:
+                    sid = "none" if r.structure is None else str(REC.sid(r.structure))
+                    head = [show_bool(r.valid is True), sid, show_bool(r.error_trace is not None),
+                            show_bool(r.raw_peptide_chain == raw)]
+                except Exception as e:      # not even a result object
+                    info["error"] = e
+                    emit(line, f"raise:{type(e).__name__} {calls}", info)
+                    continue
                 if t[0] == "foldx":
                     su = "none" if r.strategy_used is None else self.strat_letter.get(r.strategy_used, "?")
                     conf = show_rat(Fraction(r.confidence).limit_denominator(1000))
@@ -674,13 +692,20 @@ class C11(Prop):
                     head += [su, conf, "[" + ",".join(notes) + "]", "[" + ",".join(atts) + "]"]
                 emit(line, " ".join(head + [calls]), info)
             elif t[0] == "stats":
-                s = ch.get_statistics()
-                emit(line, " ".join([str(s["total_folds"]), str(s["successful_folds"]),
-                                     ":".join(str(s["strategy_success"][STRAT_LETTERS[k].lower()]) for k in "selr"),
-                                     ":".join(str(s["strategy_attempts"][STRAT_LETTERS[k].lower()]) for k in "selr")]))
+                try:
+                    s = ch.get_statistics()
+                    emit(line, " ".join([str(s["total_folds"]), str(s["successful_folds"]),
+                                         ":".join(str(s["strategy_success"][STRAT_LETTERS[k].lower()]) for k in "selr"),
+                                         ":".join(str(s["strategy_attempts"][STRAT_LETTERS[k].lower()]) for k in "selr")]),
+                         {"op": "stats", "error": None})
+                except Exception as e:
+                    emit(line, f"raise:{type(e).__name__}", {"op": "stats", "error": e})
             elif t[0] == "resetstats":
-                ch.reset_statistics()
-                emit(line, "ok")
+                try:
+                    ch.reset_statistics()
+                    emit(line, "ok")
+                except Exception as e:
+                    emit(line, f"raise:{type(e).__name__}", {"op": "resetstats", "error": e})
             else:
                 emit(line, "bad-op")
         case["lines"][:] = out_lines      # the recorded environment travels with the case (replays, model input)
@@ -692,7 +717,7 @@ class C11(Prop):
         FS = self.m.FoldingStrategy
         pairs = {}
         for idx, (line, o, x) in enumerate(zip(case["lines"], obs, extra)):
-            if not x:
+            if not x or x.get("op") not in ("fold", "foldx"):
                 continue
             raw, S, r = x["raw"], x["S"], x["result"]
             # "No raw text makes folding raise."
@@ -794,10 +819,10 @@ class C11(Prop):
         return False
 
     # --- generation -------------------------------------------------------------------------------------------
-    KINDS = ["int", "int", "float", "str", "str", "bool", "li", "ls", "oi", "os", "oid", "osd", "id", "sd"]
+    KINDS = ["int", "int", "float", "str", "str", "bool", "li", "ls", "oi", "os", "oid", "osd", "id", "sd", "la"]
     STRS = ["x", "hello world", "None of it", "True", "it's", "a,b", "{x}", "[1]", "```", "null", "yes", "42", "",
             "été", 'a"b', "line\nbreak", "k: 'v'", "undefined", "NaN", "False alarm", "a, b, c", "1.5", "no",
-            "tab\there", "back\\slash", "</json>", "{\"k\": 1}", "q: None"]
+            "tab\there", "back\\slash", "</json>", "{\"k\": 1}", "q: None", "caf\ud83d", "\udc00x"]
 
     def rand_fields(self, rng, depth=0, big=False):
         n = rng.choice([1, 2, 2, 3, 3, 4]) if not big else rng.randint(7, 10)
@@ -828,6 +853,11 @@ class C11(Prop):
             return [rng.randint(0, 9) for _ in range(rng.randint(0, 3))]
         if kind == "ls":
             return [rng.choice(self.STRS) for _ in range(rng.randint(0, 3))]
+        if kind == "la":
+            v = [rng.randint(0, 9) for _ in range(rng.randint(0, 2))]
+            for _ in range(rng.choice([0, 0, 0, 0, 0, 1, 1, 2, 3, rng.choice([150, 250, 300])])):   # bare `list`: any depth validates
+                v = [v]
+            return v
         if kind in ("oi", "oid"):
             return None if rng.random() < 0.3 else rng.randint(0, 99)
         if kind in ("os", "osd"):
@@ -930,14 +960,23 @@ class C11(Prop):
             fields = self.rand_fields(rng, big=rng.random() < 0.04)
             lines = ["schema " + self.spec_of(fields),
                      "new " + (self.rand_strats(rng) if rng.random() < 0.25 else "none")]
-            for _ in range(rng.choice([1, 1, 2, 3])):
-                raw = self.rand_raw(rng, fields)
+            # a history on ONE Chaperone: several texts, changing strategy lists, repeats, resets in between
+            prev = None
+            for _ in range(rng.choice([1, 1, 2, 2, 3, 4, 6])):
+                if prev is not None and rng.random() < 0.15:
+                    raw = prev
+                else:
+                    raw = self.rand_raw(rng, fields)
+                prev = raw
                 st = self.rand_strats(rng)
                 ops = rng.choice([["fold", "foldx"], ["foldx", "fold"], ["fold", "foldx"], ["foldx"], ["fold"]])
                 for op in ops:
                     lines.append(f"{op} {hexs(raw)} {st}")
-                if rng.random() < 0.1:
-                    lines.append("resetstats" if rng.random() < 0.4 else "stats")
+                x = rng.random()
+                if x < 0.15:
+                    lines.append("resetstats")
+                elif x < 0.3:
+                    lines.append("stats")
             lines.append("stats")
             yield {"lines": lines, "note": "random"}
 
@@ -962,7 +1001,8 @@ class C11(Prop):
             for call in ["none", "-", "e", "sl"]:
                 raw = "x {'a': 1} y"
                 ctor_cases.append({"lines": [f"schema {spec}", f"new {ctor}", f"fold {hexs(raw)} {call}",
-                                             f"foldx {hexs(raw)} {call}", "stats", "resetstats", "stats"],
+                                             f"foldx {hexs(raw)} {call}", "stats", "resetstats", "stats",
+                                             f"foldx {hexs(raw)} {call}", f"fold {hexs(raw)} {call}", "stats"],
                                    "note": "constructor x call strategy glue"})
         edge_cases = []
         for raw in ["[" * 2000 + '{"a": 1}', '{"a":' * 2000 + "1", "42", '""', "null", "[1, 2]", '{"a": 1}' + "]" * 3,
@@ -971,6 +1011,13 @@ class C11(Prop):
                 edge_cases.append({"lines": [f"schema {spec}", "new none", f"foldx {hexs(raw)} {st}",
                                              f"fold {hexs(raw)} {st}", "stats"],
                                    "note": "deep nesting / scalar documents / literals"})
+        deep = "[" * 260 + "]" * 260
+        for raw in ['{"s": "caf\\ud83d", "l": []}', '{"s": "x", "l": ' + deep + '}',
+                    'ok ```json\n{"s": "\\udc00", "l": [' + deep + ']}\n```']:
+            for st in ["none", "s", "se", "es", "r"]:
+                edge_cases.append({"lines": ["schema s:str,l:la", "new none", f"foldx {hexs(raw)} {st}",
+                                             f"fold {hexs(raw)} {st}", "stats"],
+                                   "note": "clean JSON that only json.loads reads: lone-surrogate escapes, nesting > 200"})
         spec2 = "i:int,f:float,s:str,b:bool,l:ls,o:oid,n:n{i:int}"
         for raw in ['{"i": "4", "f": "1.5", "s": 7, "b": "yes", "l": "a, b", "n": {"i": 1}}',
                     '{"i": " 12 ", "f": "nan", "s": 2.5, "b": "NO", "l": "", "o": "3", "n": {"i": "5"}}',
